@@ -184,7 +184,7 @@ fn round_alphabet(thorough: bool) -> Vec<Round> {
                 if tasks == 1 && !all {
                     continue;
                 }
-                for gap in if thorough { vec![0u64, 100, 500, 1000, 3000] } else { vec![0u64, 500, 1000] } {
+                for gap in if thorough { vec![0u64, 100, 1000, 3000] } else { vec![0u64, 500, 1000] } {
                     v.push(Round { tasks, cost, all, gap });
                 }
             }
@@ -310,7 +310,7 @@ fn concurrent_part(rep: &mut Report, thorough: bool) -> (u64, Value) {
         }
     }
     clock::unset();
-    (total, json!({"histories": total, "rounds_per_history": depth, "round_alphabet": n, "largest_number_of_grants_in_one_round": maxg, "rule": "every history of this many rounds over {1, 2, 16 (thorough also 3, 8) tasks calling the real IpRateLimiter::check for one source at once} x {cost 200, 1000} x {every task / every second task yields between its check and its charge} x {gap 0, 500, 1000 s (thorough also 100, 3000)}; the yield is tokio's own (cooperative budget exhausted at the write lock); oracle: volume over every window <= 2B + 2R(dt+1) + 2(K-1)cost. largest_number_of_grants_in_one_round > 2 shows that checks really overlapped"}))
+    (total, json!({"histories": total, "rounds_per_history": depth, "round_alphabet": n, "largest_number_of_grants_in_one_round": maxg, "rule": "every history of this many rounds over {1, 2, 16 (thorough also 3, 8) tasks calling the real IpRateLimiter::check for one source at once} x {cost 200, 1000} x {every task / every second task yields between its check and its charge} x {gap 0, 500, 1000 s (thorough 0, 100, 1000, 3000)}; the yield is tokio's own (cooperative budget exhausted at the write lock); oracle: volume over every window <= 2B + 2R(dt+1) + 2(K-1)cost. largest_number_of_grants_in_one_round > 2 shows that checks really overlapped"}))
 }
 
 // ---------------------------------------------------------------------------
